@@ -777,6 +777,7 @@ func (fx *Fx) applyCall(st *State, fn *types.Func, recv *Val, args []Val, call *
 		m2.emits = false
 		fx.havocMods(st, &m2)
 		st.havocLogOpaque()
+		st.havocHeap("NC")
 	} else {
 		fx.havocMods(st, ms)
 	}
